@@ -451,6 +451,14 @@ package listz
 //@   ensures towerOK()
 //@   ensures fresh(s.head.next) && len(s.head.next) == 32 && s.len == 0 && s.level == 1 && s.rand != nil
 //@   ensures forall i in 0..32: s.head.next[i] == nil
+//@   modifies[sq] s.seq, anyof(SkipNode.own), s.head.pos
+//@   ensures[sq] skSeq(s) && forall e in refs(SkipNode): e.own != s
+//@   ensures[sq] forall e in refs(SkipNode): (old(e.own) != s && e != s.head) ==> e.own == old(e.own)
+//@   at end:
+//@     ghost[sq] all SkipNode.own = seqdef y: ite(skn(y).own == s, nil, skn(y).own)
+//@     ghost[sq] s.head.pos = 0
+//@     ghost[sq] s.head.own = nil
+//@     ghost[sq] s.seq = seqdef k: ite(k == 0, s.head, nil)
 
 //@ func SkipList.Clear
 //@   requires skOK(s) && towerOK()
@@ -458,10 +466,25 @@ package listz
 //@   ensures towerOK()
 //@   ensures fresh(s.head.next) && len(s.head.next) == 32 && s.len == 0 && s.level == 1
 //@   ensures forall i in 0..32: s.head.next[i] == nil
+//@   modifies[sq] s.seq, anyof(SkipNode.own), s.head.pos
+//@   ensures[sq] skSeq(s) && forall e in refs(SkipNode): e.own != s
+//@   ensures[sq] forall e in refs(SkipNode): (old(e.own) != s && e != s.head) ==> e.own == old(e.own)
+//@   at end:
+//@     ghost[sq] all SkipNode.own = seqdef y: ite(skn(y).own == s, nil, skn(y).own)
+//@     ghost[sq] s.head.pos = 0
+//@     ghost[sq] s.head.own = nil
+//@     ghost[sq] s.seq = seqdef k: ite(k == 0, s.head, nil)
 
+// a list is either initialised and a sorted sequence, or not yet (or no longer) initialised and owns no node
+//@ spec skPre(s ref) bool = ite(len(s.head.next) != 0 && s.rand != nil, skSeq(s), forall e in refs(SkipNode): e.own != s)
 //@ func SkipList.lazyInit
 //@   requires skOK(s) && towerOK()
 //@   modifies s.head.next, s.len, s.level, s.rand
+//@   requires[sq] skPre(s)
+//@   modifies[sq] s.seq, anyof(SkipNode.own), s.head.pos
+//@   ensures[sq] skSeq(s)
+//@   ensures[sq] forall e in refs(SkipNode): (e != s.head ==> e.own == old(e.own)) && (e.own == s ==> e.pos == old(e.pos))
+//@   ensures[sq] (old(len(s.head.next)) != 0 && old(s.rand) != nil) ==> ((forall k in 0..s.len+1: s.seq[k] == old(s.seq[k])) && (forall e in refs(SkipNode): e.own == old(e.own) && e.pos == old(e.pos)))
 //@   ensures skOK(s) && towerOK() && len(s.head.next) == 32 && s.rand != nil
 //@   ensures (old(len(s.head.next)) != 0 && old(s.rand) != nil) ==> (sameSlice(s.head.next, old(s.head.next)) && s.len == old(s.len) && s.level == old(s.level) && s.rand == old(s.rand))
 //@   ensures (old(len(s.head.next)) == 0 || old(s.rand) == nil) ==> (s.len == 0 && s.level == 1)
@@ -515,6 +538,9 @@ package listz
 //@   noterm
 //@   requires skOK(s) && towerOK()
 //@   ensures len(s.head.next) == 0 ==> !result2
+//@   requires[sq] skSeq(s)
+//@   ensures[sq] forall m in refs(SkipNode): (m != nil && m.own == s && m.key == key) ==> (result2 && result1 == m.val)
+//@   ensures[sq] result2 ==> !(forall m in refs(SkipNode): (m != nil && m.own == s) ==> m.key != key)
 
 //@ func SkipList.Range
 //@   noterm
@@ -640,22 +666,113 @@ package listz
 //@   requires skOK(s) && towerOK() && s.len < 9223372036854775807
 //@   modifies s.head.next, s.len, s.level, s.rand, anyof(SkipNode.val), anyelems(SkipNode.next)
 //@   ensures skOK(s) && towerOK() && len(s.head.next) == 32
+//@   requires[sq] len(s.head.next) == 32 && s.rand != nil && skSeq(s)
+//@   modifies[sq] s.seq, anyof(SkipNode.own), anyof(SkipNode.pos)
+//@   ensures[sq] skMem(s)
+//@   ensures[sq] skKeys(s)
+//@   ensures[sq] skHeights(s)
+//@   ensures[sq] skLinks(s)
+//@   ensures[sq] skClosed(s)
+//@   ensures[sq] skNoSkip(s)
+//@   ensures[sq] forall m in oldrefs(SkipNode): m.key == old(m.key) && (m.own == s) == (old(m.own) == s) && (old(m.own) != s ==> (m.own == old(m.own) && m.pos == old(m.pos)))
+//@   ensures[sq] forall m in oldrefs(SkipNode): (m != nil && old(m.own) == s && old(m.key) == key) ==> (m.val == ite(mode == 2, old(m.val), val) && result == (mode != 2) && s.len == old(s.len))
+//@   ensures[sq] forall m in oldrefs(SkipNode): (old(m.own) != s || old(m.key) != key) ==> m.val == old(m.val)
+//@   ensures[sq] (forall m in oldrefs(SkipNode): (m != nil && old(m.own) == s) ==> old(m.key) != key) ==> (result == (mode != 1) && s.len == ite(mode == 1, old(s.len), old(s.len) + 1))
+//@   ensures[sq] forall m in refs(SkipNode): (m != nil && m.own == s && fresh(m)) ==> (m.key == key && m.val == val)
+//@   ghost[sq] s0 = s.seq
+//@   ghost[sq] p = 0
+//@   ghost[sq] nd = nil
+//@   at loop1.after:
+//@     ghost[sq] p = cur.pos
+//@     assert[sq] forall m in refs(SkipNode): (m != nil && m.own == s) ==> m.key != key
+//@     assert[sq] forall m in oldrefs(SkipNode): (m != nil && old(m.own) == s) ==> old(m.key) != key
+//@     assert[sq] 0 <= cur.pos && cur.pos <= s.len && 0 < len(cur.next)
+//@     assert[sq] cur.pos + 1 <= s.len ==> (skn(s.seq[cur.pos+1]).pos == cur.pos + 1 && skn(s.seq[cur.pos+1]).own == s && s.seq[cur.pos+1] != nil && len(skn(s.seq[cur.pos+1]).next) >= 1)
+//@     assert[sq] cur.next[0] != nil ==> (cur.next[0].own == s && cur.next[0].pos > cur.pos && cur.next[0].pos <= s.len)
+//@     assert[sq] cur.next[0] != nil ==> cur.next[0].pos <= cur.pos + 1
+//@     assert[sq] cur.next[0] != nil ==> cur.next[0].key >= key
+//@     assert[sq] cur.next[0] == nil || (cur.next[0].key > key && cur.next[0].pos == cur.pos + 1)
+//@     assert[sq] forall m in refs(SkipNode): (m != nil && m.own == s && m.pos == cur.pos) ==> m == cur
+//@     assert[sq] forall m in refs(SkipNode): (m != nil && m.own == s && m.pos < cur.pos) ==> m.key < key
+//@     assert[sq] forall m in refs(SkipNode): (m != nil && m.own == s && m.pos <= cur.pos) ==> m.key < key
+//@     assert[sq] forall m in refs(SkipNode): (m != nil && m.own == s && m.pos > cur.pos) ==> m.key > key
+//@   at loop4.after:
+//@     ghost[sq] nd = node
+//@     assert[sq] forall k in 0..level: (skIn(s, skn(old_u[k])) && k < old(len(skn(old_u[k]).next)) && old(skn(old_u[k]).pos) <= p)
+//@     assert[sq] forall k in 0..level: (old(skn(old_u[k]).next[k]) == nil || old(skn(skn(old_u[k]).next[k]).pos) > p)
+//@     assert[sq] forall n in oldrefs(SkipNode): forall k in 0..old(len(n.next)): (k < level && skIn(s, n) && old(n.pos) <= p && (old(n.next[k]) == nil || old(skn(n.next[k]).pos) > p)) ==> n == old_u[k]
+//@     assert[sq] forall n in oldrefs(SkipNode): forall k in 0..len(n.next): n.next[k] == ite(k < level && n == old_u[k], node, old(n.next[k]))
+//@     assert[sq] forall k in 0..level: node.next[k] == old(skn(old_u[k]).next[k])
+//@   at end:
+//@     ghost[sq] all SkipNode.pos = seqdef y: ite(nd != nil && old(skn(y).own) == s && skn(y).pos > p, skn(y).pos + 1, skn(y).pos)
+//@     ghost[sq] skn(nd).pos = ite(nd != nil, p + 1, skn(nd).pos)
+//@     ghost[sq] skn(nd).own = ite(nd != nil, s, skn(nd).own)
+//@     ghost[sq] s.seq = ite(nd != nil, seqdef k: ite(k <= p, s0[k], ite(k == p + 1, nd, s0[k-1])), s0)
 //@   loop 1:
 //@     invariant -1 <= i && i < s.level && cur != nil && (i >= 0 ==> i < len(cur.next))
-//@     invariant len(update) == 32 && notTower(update) && predsOK(update, i + 1, s.level)
+//@     invariant len(update) == 32 && notTower(update) && predsOK(update, i + 1, s.level) && fresh(update)
 //@     invariant towerOK() && skOK(s) && len(s.head.next) == 32 && s.rand != nil && s.len < 9223372036854775807
+//@     invariant[sq] forall n in oldrefs(SkipNode): forall k in 0..len(n.next): n.next[k] == old(n.next[k])
+//@     invariant[sq] forall n in oldrefs(SkipNode): (len(n.next) == old(len(n.next)) && n.next.arr == old(n.next.arr) && n.pos == old(n.pos) && n.own == old(n.own) && n.key == old(n.key) && n.val == old(n.val))
+//@     invariant[sq] s.len == old(s.len) && s.level == old(s.level) && forall k in 0..s.len+1: s.seq[k] == old(s.seq[k])
+//@     invariant[sq] skMem(s)
+//@     invariant[sq] skKeys(s)
+//@     invariant[sq] skLinks(s)
+//@     invariant[sq] skNoSkip(s)
+//@     invariant[sq] skIn(s, cur) && (cur != s.head ==> cur.key < key)
+//@     invariant[sq] forall j in i+1..s.level: skPred(s, update, j, key)
+//@     invariant[sq] i < s.level - 1 ==> update[i+1] == cur
+//@     invariant[sq] forall m in refs(SkipNode): (m != nil && m.own == s && m.key == key) ==> len(m.next) <= i + 1
 //@   loop 2:
 //@     invariant 0 <= i && i < s.level && cur != nil && i < len(cur.next)
-//@     invariant len(update) == 32 && notTower(update) && predsOK(update, i + 1, s.level)
+//@     invariant len(update) == 32 && notTower(update) && predsOK(update, i + 1, s.level) && fresh(update)
 //@     invariant towerOK() && skOK(s) && len(s.head.next) == 32 && s.rand != nil && s.len < 9223372036854775807
+//@     invariant[sq] forall n in oldrefs(SkipNode): forall k in 0..len(n.next): n.next[k] == old(n.next[k])
+//@     invariant[sq] forall n in oldrefs(SkipNode): (len(n.next) == old(len(n.next)) && n.next.arr == old(n.next.arr) && n.pos == old(n.pos) && n.own == old(n.own) && n.key == old(n.key) && n.val == old(n.val))
+//@     invariant[sq] s.len == old(s.len) && s.level == old(s.level) && forall k in 0..s.len+1: s.seq[k] == old(s.seq[k])
+//@     invariant[sq] skMem(s)
+//@     invariant[sq] skKeys(s)
+//@     invariant[sq] skLinks(s)
+//@     invariant[sq] skNoSkip(s)
+//@     invariant[sq] skIn(s, cur) && (cur != s.head ==> cur.key < key)
 //@   loop 3:
 //@     invariant s.level <= i && i <= level && level == s.level + 1 && level <= 32
-//@     invariant len(update) == 32 && notTower(update) && predsOK(update, 0, i)
+//@     invariant len(update) == 32 && notTower(update) && predsOK(update, 0, i) && fresh(update)
 //@     invariant towerOK() && skOK(s) && len(s.head.next) == 32 && s.len < 9223372036854775807
+//@     invariant[sq] forall n in oldrefs(SkipNode): forall k in 0..len(n.next): n.next[k] == old(n.next[k])
+//@     invariant[sq] forall n in oldrefs(SkipNode): (len(n.next) == old(len(n.next)) && n.next.arr == old(n.next.arr) && n.pos == old(n.pos) && n.own == old(n.own) && n.key == old(n.key) && n.val == old(n.val))
+//@     invariant[sq] s.len == old(s.len) && s.level == old(s.level) && forall k in 0..s.len+1: s.seq[k] == old(s.seq[k])
+//@     invariant[sq] forall j in 0..s.level: skPred(s, update, j, key)
+//@     invariant[sq] forall j in s.level..i: update[j] == s.head
 //@   loop 4:
 //@     invariant 0 <= i && i <= level && level <= s.level && node != nil && len(node.next) == level && node != s.head
-//@     invariant len(update) == 32 && notTower(update) && predsOK(update, 0, level)
+//@     invariant len(update) == 32 && notTower(update) && predsOK(update, 0, level) && fresh(update)
 //@     invariant towerOK() && skOK(s) && len(s.head.next) == 32 && s.len < 9223372036854775807
+//@     invariant[sq] fresh(node) && fresh(node.next) && node.key == key && node.val == val && 1 <= level
+//@     invariant[sq] forall j in 0..level: update[j] == old_u[j]
+//@     invariant[sq] forall n in oldrefs(SkipNode): (len(n.next) == old(len(n.next)) && n.next.arr == old(n.next.arr) && n.pos == old(n.pos) && n.own == old(n.own) && n.key == old(n.key) && n.val == old(n.val))
+//@     invariant[sq] s.len == old(s.len) && s.level == ite(level > old(s.level), level, old(s.level)) && level <= old(s.level) + 1 && forall k in 0..s.len+1: s.seq[k] == old(s.seq[k])
+//@     invariant[sq] forall j in 0..level: (skIn(s, update[j]) && (update[j] != s.head ==> update[j].key < key) && j < len(update[j].next) && !fresh(update[j]))
+//@     invariant[sq] forall j in 0..level: (old(skn(old_u[j]).next[j]) == nil || old(skn(skn(old_u[j]).next[j]).key) > key)
+//@     invariant[sq] forall n in oldrefs(SkipNode): forall k in 0..len(n.next): (k >= i || n != update[k]) ==> n.next[k] == old(n.next[k])
+//@     invariant[sq] forall j in 0..i: skn(old_u[j]).next[j] == node
+//@     invariant[sq] forall j in 0..i: node.next[j] == old(skn(old_u[j]).next[j])
+//@   ghost[sq] old_u = anyseq()
+//@   at after-call3:
+//@     ghost[sq] old_u = seqdef j: update[j]
+//@   at loop3.after:
+//@     assert[sq] s.head.next[s.level] == nil
+//@     ghost[sq] old_u = seqdef j: update[j]
+//@   at loop4.body-end:
+//@     assert[sq] update[i].next.arr != update.arr && node.next.arr != update.arr
+//@     assert[sq] forall j in 0..level: update[j] == old_u[j]
+//@     assert[sq] forall j in 0..level: (update[j] == update[i] || update[j].next.arr != update[i].next.arr)
+//@     assert[sq] forall j in 0..level: (update[j].next.arr != node.next.arr && update[j] != node)
+//@     assert[sq] forall j in 0..level: (old_u[j] == old_u[i] || skn(old_u[j]).next.arr != skn(old_u[i]).next.arr)
+//@     assert[sq] forall j in 0..i: skn(old_u[j]).next[j] == node
+//@     assert[sq] skn(old_u[i]).next[i] == node && node.next[i] == old(skn(old_u[i]).next[i])
+//@     assert[sq] forall j in 0..i: node.next[j] == old(skn(old_u[j]).next[j])
+//@     assert[sq] node.next[i] != nil ==> i < len(node.next[i].next)
 
 // ---------------------------------------------------------------------------------------------------------------
 // SkipListWithCmp: the same memory-safety level contracts (a zero value must be Init-ed with its comparator before Set).
